@@ -420,3 +420,25 @@ func (s *Sim) RunBubble(body func()) (bubbleErr error) {
 
 // SetVictim makes the n-th task created the one that never runs while anything else can.
 func (s *Sim) SetVictim(n int) { s.victimN = n }
+
+// NamedCount is the number of tasks named so far.
+func (s *Sim) NamedCount() int {
+	s.mu.Lock()
+	defer s.mu.Unlock()
+	return len(s.named) + len(s.fresh)
+}
+
+// TasksSince reports how many tasks appeared after the first n and whether every one of them is
+// currently parked waiting for a mutex (none ever reached a plain yield).
+func (s *Sim) TasksSince(n int) (count int, allLockWait bool) {
+	s.mu.Lock()
+	defer s.mu.Unlock()
+	allLockWait = true
+	for i := n; i < len(s.named); i++ {
+		count++
+		if !(s.named[i].parked && s.named[i].lockWait) {
+			allLockWait = false
+		}
+	}
+	return count, allLockWait && count > 0
+}
